@@ -35,6 +35,7 @@ type FeedSpec struct {
 	Dump     bool   `json:"dump,omitempty"`
 	Stable   bool   `json:"stable,omitempty"` // lives for the whole run: gets the full C08 comparison
 	Run      int    `json:"run,omitempty"`    // n-th run of a checkpointed feed with this ID
+	NoDone   bool   `json:"nodone,omitempty"` // the caller passes no done channel
 }
 
 // LogKey names the log of one run of a feed (a checkpointed feed is run several times under one ID).
@@ -73,6 +74,7 @@ type e2 struct {
 	env           Env
 	mu            sync.Mutex
 	hist          []*HistEntry
+	failedStarts  []*FeedLog // feeds whose start reported an error (they may have run for a moment)
 	seq           atomic.Int64
 	init          []map[string]Doc // per collection, after setup
 	names         map[string]bool
@@ -312,6 +314,16 @@ func (e *e2) run() {
 		e.abandon()
 		return
 	}
+	for i := 0; i < 6 && len(s.HeldMutexes()) > 0; i++ {
+		// somebody may hold a mutex while sleeping on the simulated clock (rosmar's back-off between the
+		// attempts of a transaction, with the bucket mutex held): let that time pass - with the hooks
+		// still parking, so that whatever wakes up is scheduled like everything else - and finish the
+		// work it releases, before a held mutex counts as leaked
+		s.advance(400 * time.Millisecond)
+		if v2 := s.Drain(); v2.Deadlock || v2.StepLimit {
+			break
+		}
+	}
 	s.SetParking(false)
 	synctest.Wait()
 	for _, t := range s.Tasks() {
@@ -392,11 +404,18 @@ func (e *e2) startFeed(fs FeedSpec) (*FeedLog, error) {
 		for i := range colls {
 			colls[i] = i
 		}
-		f, err = e.w.StartBucketFeed(fs.Handle, colls, fs.ID, bf, fs.Dump, fs.Ckpt, stepFn)
+		f, err = e.w.StartBucketFeed(fs.Handle, colls, fs.ID, bf, fs.Dump, fs.Ckpt, stepFn, fs.NoDone)
 	} else {
 		f, err = e.w.StartFeed(fs.Handle, fs.Coll, fs.ID, bf, fs.Dump, fs.KeysOnly, fs.Ckpt, stepFn)
 	}
 	if err != nil {
+		// (a bucket-level feed that failed to start may have run for a moment on the collections that
+		// did start: what its callback received counts as delivered)
+		if f != nil && fs.Ckpt != "" {
+			e.mu.Lock()
+			e.failedStarts = append(e.failedStarts, f)
+			e.mu.Unlock()
+		}
 		return nil, err
 	}
 	e.mu.Lock()
@@ -491,7 +510,7 @@ func isReadKind(k string) bool {
 
 func isControlKind(k string) bool {
 	switch k {
-	case "StartFeed", "StopFeed", "WaitFeed", "Close", "CloseAndDelete", "DropColl", "CreateColl", "OpenHandle", "OpenOther", "Sleep", "View", "Yield", "PutDDoc", "DelDDoc":
+	case "StartFeed", "StopFeed", "WaitFeed", "Close", "CloseAndDelete", "DropColl", "CreateColl", "OpenHandle", "OpenOther", "HLCBurn", "Sleep", "View", "Yield", "PutDDoc", "DelDDoc":
 		return true
 	}
 	return false
@@ -981,6 +1000,9 @@ func (e *e2) teardownOracles() {
 	// of the done channel would have panicked), and must not call back afterwards
 	for _, id := range e.feedOrder {
 		f := e.feeds[id]
+		if e.feedSpec[id].NoDone {
+			continue // nothing to observe: only the goroutine census at the end of the run speaks about it
+		}
 		if !f.IsDone() {
 			e.violate([]string{"C16"}, "feed.not-done", "feed %s did not close its done channel after its terminator was closed", id)
 			return
